@@ -96,6 +96,38 @@ def run(self, until=None):
     return None
 ''')
 
+spec('Environment', 'run@numeric', what='what C01 needs of run(): no until -> run to the end of the agenda; numeric until: refused unless '
+                                        'at > now, fresh sentinel (ok, None) pushed at exactly (at, URGENT, next id) with the stop '
+                                        'callback, steps until it fires. An event until is left open here (C02/C03)')('''
+def run(self, until=None):
+    stop_event = None
+    if until is not None:
+        if not isinstance(until, Event):
+            if isinstance(until, int):
+                at = until
+            else:
+                at = float(until)
+            if at <= self.now:
+                raise ValueError()
+            until = Event(self)
+            until._ok = True
+            until._value = None
+            heappush(self._queue, (at, URGENT, next(self._eid), until))
+            until.callbacks.append(StopSimulation.callback)
+        else:
+            DONTCARE()
+            return None
+    try:
+        while self._queue:
+            self.step()
+    except StopSimulation as exc:
+        return exc.args[0]
+    if until is not None:
+        assert not until.triggered
+        raise RuntimeError()
+    return None
+''')
+
 spec('StopSimulation', 'callback', what='stop callback raises StopSimulation(value) / the failure')('''
 def callback(cls, event):
     if event.ok:
@@ -464,9 +496,18 @@ def strict(self):
 ''')
 
 
+# what C01 needs of Process._resume: *that* and *how* the termination goes through the agenda (every exit of the
+# generator schedules the process event once, NORMAL, now; nobody but step() marks an event processed).  Values sent,
+# exceptions thrown and subscriptions are C02/C04.
+AGENDA_VIEW = View(only_calls=('schedule', 'heappush'), observe_only=('*.callbacks',), ignore_exit_value=True)
+SPECS[('Process', '_resume@agenda')] = dict(SPECS[('Process', '_resume')], view=AGENDA_VIEW,
+                                            what='every way the generator ends puts the process event on the agenda exactly once '
+                                                 '(NORMAL, now); the event is never marked processed here')
+
+
 def run_tables(ctx, prefix, keys):
     """run the named reference tables under rule ids <prefix>.<Class>.<method>"""
     for (c, m) in keys:
         d = SPECS[(c, m)]
-        ctx.table('%s.T.%s.%s' % (prefix, c, m), c, m, d['src'], d['view'] or KVIEW, d['opts'],
+        ctx.table('%s.T.%s.%s' % (prefix, c, m), c, m.split('@')[0], d['src'], d['view'] or KVIEW, d['opts'],
                   ctx_cls=d['ctx'], region=d['region'], own=not d['inherit'], what=d['what'] or '%s.%s as the property requires' % (c, m))
